@@ -1,7 +1,337 @@
-// Package c18 interprets the C18 op language against the real packages (stub).
+// Package c18 interprets the C18 op language against the real ext/datasource package and the five
+// real rule managers.
+//
+//	ds.handle <module> <hex payload | ->        => ok|err <module's GetRules, canonical>
+//	rules <module>                              => <GetRules, canonical>
+//	tags <module>                               => GoField:kind:jsonname[,omitempty];…   (reflection on the wire type)
+//	file.new <module> <hex | none>              => ok|err <rules>      (real temp file + fsnotify; thorough tier)
+//	file.write <hex> | file.remove | file.rename => <rules>            (after a bounded wait for the watcher)
+//	file.close
+//
+// module ∈ flow | system | cb | isolation | hotspot.  Strings are printed as s<hex>, floats as bit patterns,
+// the rule list is sorted.
 package c18
 
-import "verifharness/internal/vh"
+import (
+	"encoding/hex"
+	"fmt"
+	"os"
+	"path/filepath"
+	"reflect"
+	"sort"
+	"strings"
+	"sync/atomic"
+	"time"
 
-// New returns the interpreter for C18.
-func New() vh.Interp { return nil }
+	cb "github.com/alibaba/sentinel-golang/core/circuitbreaker"
+	"github.com/alibaba/sentinel-golang/core/flow"
+	"github.com/alibaba/sentinel-golang/core/hotspot"
+	"github.com/alibaba/sentinel-golang/core/isolation"
+	"github.com/alibaba/sentinel-golang/core/stat"
+	"github.com/alibaba/sentinel-golang/core/system"
+	"github.com/alibaba/sentinel-golang/ext/datasource"
+	"github.com/alibaba/sentinel-golang/ext/datasource/file"
+	"verifharness/internal/vh"
+)
+
+type Interp struct {
+	handlers map[string]datasource.PropertyHandler
+	// file datasource state
+	dir   string
+	path  string
+	fds   *file.RefreshableFileDataSource
+	fmod  string
+	count *int64
+	// the watcher goroutine stops looking after a removal
+	removed bool
+}
+
+// writeInPlace replaces the file's content without ever making it shorter than a prefix of the new content followed
+// by old bytes (one write, then a truncate only when shrinking), so that whatever the watcher reads in between is
+// either the final content or undecodable.  Reports whether the watcher is expected to call the handler.
+func (it *Interp) writeInPlace(b []byte) bool {
+	if it.removed {
+		_ = os.WriteFile(it.path, b, 0o644) // re-created: nobody is watching any more
+		return false
+	}
+	st, err := os.Stat(it.path)
+	if err != nil {
+		panic(err)
+	}
+	f, err := os.OpenFile(it.path, os.O_WRONLY, 0o644)
+	if err != nil {
+		panic(err)
+	}
+	defer f.Close()
+	events := false
+	if len(b) > 0 {
+		if _, err := f.Write(b); err != nil {
+			panic(err)
+		}
+		events = true
+	}
+	if st.Size() > int64(len(b)) {
+		if err := f.Truncate(int64(len(b))); err != nil {
+			panic(err)
+		}
+		events = true
+	}
+	return events
+}
+
+func New() vh.Interp {
+	vh.Silence()
+	return &Interp{}
+}
+
+func clearAll() {
+	_ = flow.ClearRules()
+	_ = system.ClearRules()
+	_ = cb.ClearRules()
+	_ = isolation.ClearRules()
+	_ = hotspot.ClearRules()
+	stat.ResetResourceNodeMap()
+}
+
+func (it *Interp) closeFile() {
+	if it.fds != nil {
+		_ = it.fds.Close()
+		it.fds = nil
+	}
+	if it.dir != "" {
+		_ = os.RemoveAll(it.dir)
+		it.dir = ""
+	}
+}
+
+func (it *Interp) Reset() {
+	it.closeFile()
+	clearAll()
+	it.handlers = map[string]datasource.PropertyHandler{}
+}
+
+func newHandler(mod string) datasource.PropertyHandler {
+	switch mod {
+	case "flow":
+		return datasource.NewFlowRulesHandler(datasource.FlowRuleJsonArrayParser)
+	case "system":
+		return datasource.NewSystemRulesHandler(datasource.SystemRuleJsonArrayParser)
+	case "cb":
+		return datasource.NewCircuitBreakerRulesHandler(datasource.CircuitBreakerRuleJsonArrayParser)
+	case "isolation":
+		return datasource.NewIsolationRulesHandler(datasource.IsolationRuleJsonArrayParser)
+	case "hotspot":
+		return datasource.NewHotSpotParamRulesHandler(datasource.HotSpotParamRuleJsonArrayParser)
+	}
+	panic("bad module " + mod)
+}
+
+func (it *Interp) handler(mod string) datasource.PropertyHandler {
+	h, ok := it.handlers[mod]
+	if !ok {
+		h = newHandler(mod)
+		it.handlers[mod] = h
+	}
+	return h
+}
+
+func s(x string) string { return "s" + hex.EncodeToString([]byte(x)) }
+
+func specific(m map[interface{}]int64) string {
+	xs := make([]string, 0, len(m))
+	for k, v := range m {
+		var ks string
+		switch kk := k.(type) {
+		case int:
+			ks = fmt.Sprintf("i:%d", kk)
+		case string:
+			ks = "s:" + hex.EncodeToString([]byte(kk))
+		case bool:
+			if kk {
+				ks = "b:1"
+			} else {
+				ks = "b:0"
+			}
+		case float64:
+			ks = vh.FBits(kk)
+		default:
+			ks = fmt.Sprintf("?:%v", kk)
+		}
+		xs = append(xs, fmt.Sprintf("%s=%d", ks, v))
+	}
+	sort.Strings(xs)
+	if m == nil {
+		return "nil"
+	}
+	return "<" + strings.Join(xs, "|") + ">"
+}
+
+func rules(mod string) string {
+	var xs []string
+	switch mod {
+	case "flow":
+		for _, r := range flow.GetRules() {
+			xs = append(xs, fmt.Sprintf("{%s,%s,%d,%d,%s,%d,%s,%d,%d,%d,%d,%d,%d,%d,%d}", s(r.ID), s(r.Resource), r.TokenCalculateStrategy, r.ControlBehavior,
+				vh.FBits(r.Threshold), r.RelationStrategy, s(r.RefResource), r.MaxQueueingTimeMs, r.WarmUpPeriodSec, r.WarmUpColdFactor, r.StatIntervalInMs,
+				r.LowMemUsageThreshold, r.HighMemUsageThreshold, r.MemLowWaterMarkBytes, r.MemHighWaterMarkBytes))
+		}
+	case "system":
+		for _, r := range system.GetRules() {
+			xs = append(xs, fmt.Sprintf("{%s,%d,%s,%d}", s(r.ID), r.MetricType, vh.FBits(r.TriggerCount), r.Strategy))
+		}
+	case "cb":
+		for _, r := range cb.GetRules() {
+			xs = append(xs, fmt.Sprintf("{%s,%s,%d,%d,%d,%d,%d,%d,%s,%d}", s(r.Id), s(r.Resource), r.Strategy, r.RetryTimeoutMs, r.MinRequestAmount, r.StatIntervalMs,
+				r.StatSlidingWindowBucketCount, r.MaxAllowedRtMs, vh.FBits(r.Threshold), r.ProbeNum))
+		}
+	case "isolation":
+		for _, r := range isolation.GetRules() {
+			xs = append(xs, fmt.Sprintf("{%s,%s,%d,%d}", s(r.ID), s(r.Resource), r.MetricType, r.Threshold))
+		}
+	case "hotspot":
+		for _, r := range hotspot.GetRules() {
+			xs = append(xs, fmt.Sprintf("{%s,%s,%d,%d,%d,%s,%d,%d,%d,%d,%d,%s}", s(r.ID), s(r.Resource), r.MetricType, r.ControlBehavior, r.ParamIndex, s(r.ParamKey),
+				r.Threshold, r.MaxQueueingTimeMs, r.BurstCount, r.DurationInSec, r.ParamsMaxCapacity, specific(r.SpecificItems)))
+		}
+	default:
+		panic("bad module " + mod)
+	}
+	sort.Strings(xs)
+	return "[" + strings.Join(xs, ";") + "]"
+}
+
+func wireType(mod string) reflect.Type {
+	switch mod {
+	case "flow":
+		return reflect.TypeOf(flow.Rule{})
+	case "system":
+		return reflect.TypeOf(system.Rule{})
+	case "cb":
+		return reflect.TypeOf(cb.Rule{})
+	case "isolation":
+		return reflect.TypeOf(isolation.Rule{})
+	case "hotspot":
+		return reflect.TypeOf(datasource.HotspotRule{})
+	case "specific":
+		return reflect.TypeOf(datasource.SpecificValue{})
+	case "hotspot.core":
+		return reflect.TypeOf(hotspot.Rule{})
+	}
+	panic("bad module " + mod)
+}
+
+func tags(mod string) string {
+	t := wireType(mod)
+	xs := make([]string, 0, t.NumField())
+	for i := 0; i < t.NumField(); i++ {
+		f := t.Field(i)
+		k := f.Type.Kind().String()
+		if f.Type.Kind() == reflect.Slice {
+			k = "slice." + f.Type.Elem().Kind().String()
+		}
+		xs = append(xs, f.Name+":"+k+":"+f.Tag.Get("json"))
+	}
+	return strings.Join(xs, ";")
+}
+
+func payload(tok string) []byte {
+	if tok == "-" {
+		return nil
+	}
+	b, err := hex.DecodeString(tok)
+	if err != nil {
+		panic("bad hex payload")
+	}
+	return b
+}
+
+// counting wraps the real handler (embedding promotes the unexported interface method) so that the
+// harness can tell when the watcher goroutine has delivered something.
+type counting struct {
+	*datasource.DefaultPropertyHandler
+	n *int64
+}
+
+func (c counting) Handle(src []byte) error {
+	err := c.DefaultPropertyHandler.Handle(src)
+	atomic.AddInt64(c.n, 1)
+	return err
+}
+
+// settle waits (bounded) until the handler has been invoked at least once more than `before` and then until
+// no further invocation happens for 40 ms.
+func (it *Interp) settle(before int64, need bool) {
+	deadline := time.Now().Add(3 * time.Second)
+	if need {
+		for atomic.LoadInt64(it.count) == before && time.Now().Before(deadline) {
+			time.Sleep(2 * time.Millisecond)
+		}
+	}
+	last := atomic.LoadInt64(it.count)
+	quiet := time.Now()
+	for time.Now().Before(deadline) {
+		time.Sleep(5 * time.Millisecond)
+		if c := atomic.LoadInt64(it.count); c != last {
+			last, quiet = c, time.Now()
+		} else if time.Since(quiet) > 40*time.Millisecond {
+			return
+		}
+	}
+}
+
+func (it *Interp) Step(t []string, op string) string {
+	switch t[0] {
+	case "ds.handle":
+		err := it.handler(t[1]).Handle(payload(t[2]))
+		if err != nil {
+			return "err " + rules(t[1])
+		}
+		return "ok " + rules(t[1])
+	case "rules":
+		return rules(t[1])
+	case "tags":
+		return tags(t[1])
+	case "file.new":
+		it.closeFile()
+		dir, err := os.MkdirTemp("", "c18-")
+		if err != nil {
+			panic(err)
+		}
+		it.dir, it.path, it.fmod, it.removed = dir, filepath.Join(dir, "rules.json"), t[1], false
+		if t[2] != "none" {
+			if err := os.WriteFile(it.path, payload(t[2]), 0o644); err != nil {
+				panic(err)
+			}
+		}
+		var n int64
+		it.count = &n
+		h := newHandler(t[1]).(*datasource.DefaultPropertyHandler)
+		it.fds = file.NewFileDataSource(it.path, counting{h, it.count})
+		if err := it.fds.Initialize(); err != nil {
+			// no watcher goroutine exists: Close() would block for ever on the unbuffered closeChan
+			it.fds = nil
+			return "err " + rules(t[1])
+		}
+		return "ok " + rules(t[1])
+	case "file.write":
+		if it.fds == nil {
+			return rules(it.fmod)
+		}
+		before := atomic.LoadInt64(it.count)
+		it.settle(before, it.writeInPlace(payload(t[1])))
+		return rules(it.fmod)
+	case "file.remove":
+		if it.fds == nil {
+			return rules(it.fmod)
+		}
+		before := atomic.LoadInt64(it.count)
+		err := os.Remove(it.path)
+		it.settle(before, err == nil && !it.removed)
+		it.removed = true
+		return rules(it.fmod)
+	case "file.close":
+		it.closeFile()
+		return ""
+	}
+	panic("bad op " + op)
+}
